@@ -34,6 +34,43 @@ pub fn c13(h: &mut H) {
     let k = keygen(h, nmax);
     let k2 = keygen(h, nmax);
     let phi = Integer::from(&k.p - 1u32) * Integer::from(&k.q - 1u32);
+    // an attribute count that no longer fits a byte: 258 attributes, every position bound to its own base
+    {
+        let n = 258usize;
+        let (bs, _) = call(h, "cl.bases", vec![k.pk.clone(), json!(n)], vec![]);
+        if let Some(bv) = bs.ok() {
+            let bases: Vec<Integer> = bv.as_array().unwrap().iter().map(int_of).collect();
+            let msgs = attrs(h, n);
+            h.stat("C13.n=258");
+            if let Some(sig) = signm(h, &k, &bases, &msgs) {
+                let sid = h.last();
+                let v = verifym(h, &k.pk, &bases, &sig, &msgs);
+                h.expect(v.is_true(), "C13.verify", "signature on 258 attributes does not verify", &[sid, h.last()]);
+                for (nm, i, j) in [("first_last", 0usize, 257usize), ("0_256", 0, 256), ("1_257", 1, 257), ("255_256", 255, 256)] {
+                    let mut m = msgs.clone();
+                    m.swap(i, j);
+                    let v = verifym(h, &k.pk, &bases, &sig, &m);
+                    h.expect(!v.is_true(), "C13.attr_swap_large", &format!("signature on 258 attributes verifies with attributes {} swapped", nm), &[sid, h.last()]);
+                }
+                let mut m = msgs.clone();
+                m[257] += 1;
+                let v = verifym(h, &k.pk, &bases, &sig, &m);
+                h.expect(!v.is_true(), "C13.attr_plus_1_large", "signature on 258 attributes verifies with the last attribute altered", &[sid, h.last()]);
+                let (d, _) = call(h, "cl.disclose", vec![k.pk.clone(), ivs(&bases), ivs(&msgs), uv(&[0, 256, 257])], vec![]);
+                let did = h.last();
+                if let Some(dv) = d.ok() {
+                    let dm: Vec<Integer> = dv["a"].as_array().unwrap().iter().map(int_of).collect();
+                    let db: Vec<Integer> = dv["b"].as_array().unwrap().iter().map(int_of).collect();
+                    let v = verifym(h, &k.pk, &db, &sig, &dm);
+                    h.expect(v.is_true(), "C13.disclose", "signature on 258 attributes does not verify after selective disclosure", &[did, h.last()]);
+                } else {
+                    h.expect(false, "C13.disclose_panic", "disclose_selectively panicked for 258 attributes", &[did]);
+                }
+            } else {
+                h.expect(false, "C13.sign", "sign_multiattr panicked for 258 attributes", &[h.last()]);
+            }
+        }
+    }
     let ns: Vec<usize> = if h.thorough { vec![1, 2, 3, 4, 5] } else { vec![1, 2, 3, 5] };
     let reps = if h.thorough { 4 } else { 1 };
     for &n in &ns {
@@ -63,6 +100,25 @@ pub fn c13(h: &mut H) {
                 h.expect(back.ok() == Some(&sig), "C13.bytes_roundtrip", "signature does not survive to_bytes/from_bytes", &[h.last()]);
             } else {
                 h.expect(false, "C13.to_bytes", "signature to_bytes panicked", &[h.last()]);
+            }
+            // the same with components that have leading zero octets (about one v in 256 does; forced here)
+            let vfull = field(&sig, "v");
+            for (nm, f, val) in [
+                ("v_one_octet_short", "v", Integer::from(&vfull >> 9u32)),
+                ("v_two_octets_short", "v", Integer::from(&vfull >> 17u32)),
+                ("v_tiny", "v", Integer::from(7)),
+                ("s_short", "s", Integer::from(field(&sig, "s") >> 12u32)),
+                ("s_zero", "s", Integer::from(0)),
+            ] {
+                let z = sig_with(&sig, f, &val);
+                let (bo, _) = call(h, "cl.sigbytes", vec![z.clone()], vec![]);
+                h.stat(&format!("C13.bytes_short.{}", nm));
+                if let Some(Value::String(hx)) = bo.ok() {
+                    let (back, _) = call(h, "cl.sigfrombytes", vec![json!(hx)], vec![]);
+                    h.expect(back.ok() == Some(&z), "C13.bytes_roundtrip_short", &format!("a signature whose {} has leading zero octets ({}) does not survive to_bytes/from_bytes", f, nm), &[h.last()]);
+                } else {
+                    h.expect(false, "C13.to_bytes", "signature to_bytes panicked", &[h.last()]);
+                }
             }
             let typed: CL03Signature = serde_json::from_value(sig.clone()).unwrap();
             let back: Option<CL03Signature> = serde_json::to_string(&typed).ok().and_then(|t| serde_json::from_str(&t).ok());
